@@ -58,7 +58,12 @@ def main(argv):
                         except Exception as e:
                             dig["strs"].append("printer:" + type(e).__name__)
                     else:
-                        dig["steps"].append("R:" + type(r.exc).__name__)
+                        if "unknown result from z3" in str(r.exc):
+                            # the solver gave up (the harness sets a z3 timeout): not an answer of exo
+                            dig["steps"].append("U")
+                            dig["unstable"] = True
+                        else:
+                            dig["steps"].append("R:" + type(r.exc).__name__)
                         if variant.get("keep_text"):
                             dig.setdefault("errors", []).append(str(r.exc)[:300])
                 try:
